@@ -295,6 +295,9 @@ func (u *Unit) callWith(fr *Frame, st *State, c *ssa.CallCommon, fv Val, args []
 		}
 		name := u.eng.funcName(orig)
 		con := u.eng.contracts[name]
+		if con != nil && con.mode == "bounded" {
+			con = nil // a bounded stand-in never feeds a proof: the call is treated as uncontracted
+		}
 		if con == nil {
 			if ext := u.eng.externs[name]; ext != nil {
 				con = ext
